@@ -376,7 +376,10 @@ func Seeds(codecs []Codec) (which []uint8, data [][]byte) {
 	for i := range codecs {
 		c := &codecs[i]
 		for s := 1; s <= 3; s++ {
-			v := rapid.Custom(c.Gen).Example(s)
+			v := example(c, s)
+			if v == nil {
+				continue
+			}
 			if b, o := safeMarshal(v); o.panicked == nil && o.err == nil {
 				which, data = append(which, uint8(i)), append(data, b)
 			}
@@ -420,4 +423,15 @@ func (c Codec) WithIndexMap(name string, num uint64) Codec {
 func (c Codec) WithFixed(name string, n int, path ...Step) Codec {
 	c.Rules = append(c.Rules, Rule{Name: name, Kind: FixedLen, Path: path, Len: n})
 	return c
+}
+
+// example draws a deterministic value of the decoder's type (nil when the
+// generator draws nothing, e.g. for the empty noop proposal).
+func example(c *Codec, seed int) (m Msg) {
+	defer func() {
+		if recover() != nil {
+			m = nil
+		}
+	}()
+	return rapid.Custom(c.Gen).Example(seed)
 }
